@@ -11,7 +11,7 @@
 (* TLC with the limits given literally in the trace's reset event (they    *)
 (* come from the generator, not from the code under test).                 *)
 (***************************************************************************)
-EXTENDS HcobsFormat, TLC, Json, IOUtils
+EXTENDS FiniteSets, HcobsFormat, TLC, Json, IOUtils
 
 CONSTANTS RADIX,        \* 253, literally
           MaxArenaChunk \* 1048576: the lag bound of C09 is one arena chunk + one chunk + header
@@ -33,6 +33,9 @@ NewRun(e) == [kind |-> e.kind, ph |-> IF e.kind = "dec" THEN "dec" ELSE "enc",
               D |-> 0,                    \* bytes drained so far
               total |-> 0, stable |-> 0,  \* last observation
               live0 |-> e.live, chunks0 |-> e.chunks]
+
+\* keep the violation set small (per property): a broken build can fail tens of thousands of runs
+CapViol(v, new) == v \cup {x \in new : Cardinality({y \in v : y.prop = x.prop}) < 25}
 
 Init == l = 1 /\ failed = FALSE /\ viol = {} /\ outs = [iid |-> 0, input |-> << >>, out |-> << >>] /\
         st = [kind |-> "none", ph |-> "none", L1 |-> 1, L2 |-> 1, iid |-> 0, input |-> << >>,
@@ -153,7 +156,7 @@ Next ==
      ELSE LET r == Step(st, e) IN
           /\ st' = r.st
           /\ failed' = (failed \/ r.bad # {})
-          /\ viol' = viol \cup {[run |-> e.run, line |-> l, prop |-> w[1], what |-> w[2]] : w \in r.bad}
+          /\ viol' = CapViol(viol, {[run |-> e.run, line |-> l, prop |-> w[1], what |-> w[2]] : w \in r.bad})
           /\ outs' = IF e.ev = "finish" /\ st.ph = "enc" /\ e.panic = "" /\ st.iid > 0 /\ outs.iid # st.iid
                      THEN [iid |-> st.iid, input |-> st.input, out |-> FullOut(st, e)]
                      ELSE outs
